@@ -1,5 +1,5 @@
 (** C18 — opening an older database rebuilds derived tables exactly; reopening is a no-op. *)
-From ID Require Import Model.StoreOps Model.Query Proofs.MigrateFacts Proofs.FsPutFacts Proofs.QueryFacts Proofs.RebuildFacts.
+From ID Require Import Model.StoreOps Model.Query Proofs.MigrateFacts Proofs.FsPutFacts Proofs.QueryFacts Proofs.RebuildFacts Proofs.ReachFacts Proofs.ReachRebuild.
 
 (** a rebuilt head table holds per (namespace, author) exactly the greatest timestamp among that
     author's records, for every content of the records table (multi-document, ties, markers) *)
@@ -53,6 +53,15 @@ Theorem C18_rebuilt_after_any_history : forall EH hist l b, Forall wf_entry hist
   (forall ns au, head_of T1 ns au = head_of T ns au).
 Proof. exact rebuilt_after_any_history. Qed.
 
+(** ... and after any history that also removes and re-creates documents *)
+Theorem C18_rebuilt_in_every_reachable_store : forall EH hist l b, Forall wf_dop hist ->
+  let T := drun EH hist in
+  let T1 := open_store (wipe l b T) in
+  (forall ns, fs_all ns T1 = fs_all ns T) /\
+  (forall ns q, run_query prefix_succ EH T1 ns q = run_query prefix_succ EH T ns q) /\
+  (forall ns au, head_of T1 ns au = head_of T ns au).
+Proof. exact rebuilt_in_every_reachable_store. Qed.
+
 (** Two documents, one author in both, a deletion marker, and two entries of one author at the same
     (greatest) timestamp written greater key first: the rebuilt head carries the same timestamp but
     the other key -- which of the tied entries a head names is history, not content. *)
@@ -77,3 +86,4 @@ Print Assumptions C18_rebuilt_head_names_a_record.
 Print Assumptions C18_rebuilt_as_maintained.
 Print Assumptions C18_rebuilt_after_any_history.
 Print Assumptions C18_rebuild_with_ties.
+Print Assumptions C18_rebuilt_in_every_reachable_store.
